@@ -356,21 +356,28 @@ fn citer<T: El>() -> R {
         ensure!(rc != 0, "layout:iter_rc_end", "next function returned 0 at the end");
     }
     drop(src);
-    // C -> Rust
+    // C -> Rust: "0 for an item" — any non-zero value ends the iteration
+    thread_local! {
+        static END_CODE: Cell<i32> = const { Cell::new(1) };
+    }
     extern "C" fn my_next<T: El>(state: *mut c_void, out: *mut T) -> i32 {
         let n = unsafe { &mut *(state as *mut u64) };
         if *n >= 3 {
-            return 1;
+            return END_CODE.with(|c| c.get());
         }
         *n += 1;
         unsafe { out.write(T::make(*n * 10)) };
         0
     }
-    let mut state = 0u64;
-    let view = CIteratorView::<T> { iter: &mut state as *mut u64 as *mut c_void, func: Some(my_next::<T>) };
-    let it: CIterator<T> = unsafe { std::mem::transmute_copy(&view) };
-    let got: Vec<u64> = it.map(|e| e.val()).collect();
-    ensure!(got == [10, 20, 30], "layout:iter_from_c", "Rust iteration over a C-assembled iterator gives {:?}", got);
+    for end in [1i32, 2, -1, i32::MIN, 0x100] {
+        END_CODE.with(|c| c.set(end));
+        let mut state = 0u64;
+        let view = CIteratorView::<T> { iter: &mut state as *mut u64 as *mut c_void, func: Some(my_next::<T>) };
+        let it: CIterator<T> = unsafe { std::mem::transmute_copy(&view) };
+        // bounded: a wrapper that does not stop must not hang the check
+        let got: Vec<u64> = it.take(8).map(|e| e.val()).collect();
+        ensure!(got == [10, 20, 30], "layout:iter_from_c", "Rust iteration over a C-assembled iterator whose next function returns {} at the end gives {:?}", end, got);
+    }
     finish(&d, "citer")
 }
 
